@@ -251,9 +251,12 @@ def strip_paren(a):
     return a
 
 
-def oracle(layout, inodes, base, home, cwd_abs, entry, keys, home_relative=False):
-    """What the property requires. Returns (outcome, kinds of the literals followed)."""
+def oracle(layout, inodes, base, home, cwd_abs, entry, keys, home_relative=False, lexical=False):
+    """What the property requires. Returns (outcome, kinds of the literals followed).
+    `lexical`: collapse `.`/`..` in each hop's target textually first (Nix's own reading of a path
+    literal); differs from the kernel's only where a `..` follows a component that does not exist."""
     kinds = []
+    norm = os.path.normpath if lexical else (lambda p: p)
     cur = stat_file(os.path.join(cwd_abs, entry), inodes)
     if cur == "os":
         return ["err", "os"], kinds
@@ -292,7 +295,7 @@ def oracle(layout, inodes, base, home, cwd_abs, entry, keys, home_relative=False
         else:
             # the directory of the file that contains the literal, by its canonical location
             target = os.path.join(os.path.dirname(os.path.join(base, cur)), text)
-        cur = stat_file(target, inodes)
+        cur = stat_file(norm(target), inodes)
         if cur == "os":
             return ["err", "os"], kinds
         v, err = enter(cur, k)
@@ -384,10 +387,10 @@ def gen_import(rng, rel, d, rels, dirs, with_home):
         if td:
             return ["path", f"$BASE/{td}/../{td}/{os.path.basename(target)}"], target
         return ["path", "$BASE/empty/../" + target], target
-    if r < 0.66:  # climb above the temporary directory and come back by name
+    if r < 0.68:  # climb above the temporary directory and come back by name
         ups = "../" * ((d.count("/") + 1 if d else 0) + rng.choice([2, 3, 9]))  # `/..` is `/`
         return ["path", ups + "$BASE2/" + target], target
-    if r < 0.72:  # missing file
+    if r < 0.73:  # missing file
         return ["path", "./" + rng.choice(["nope.nix", "ghost/f.nix", "../../../../../../../../nope.nix"])], "os"
     if r < 0.78:  # lexically fine, physically not: through a directory that does not exist
         return ["path", f"./ghost/../{rp}"], "os"
@@ -395,9 +398,9 @@ def gen_import(rng, rel, d, rels, dirs, with_home):
         if rng.random() < 0.5:
             return ["path", "./" + rng.choice(["../" + os.path.basename(d) if d else "empty", "empty", "empty/.."])], "os"
         return ["path", f"./{os.path.basename(rel)}/../{os.path.basename(rel)}"], "os"
-    if r < 0.88:
+    if r < 0.87:
         return ["path", rng.choice(ANGLES)], "value"
-    if r < 0.97 or not with_home:
+    if r < 0.94 or not with_home:
         return ["other", rng.choice(OTHER_ARGS)], "type"
     return ["path", rng.choice(["~/h.nix", "~/nope.nix"])], "home"
 
@@ -416,8 +419,9 @@ def gen_chain(rng, layout, intended, max_hops):
             keys.append("v")
             break
         imps = [kp for (f, kp) in intended if f == cur]
-        if hops < max_hops and imps and rng.random() < 0.85:
-            kp = rng.choice(imps)
+        if hops < max_hops and imps and rng.random() < 0.92:
+            good = [kp for kp in imps if intended[(cur, kp)] in layout["files"]]
+            kp = rng.choice(good if good and rng.random() < 0.7 else imps)
             keys += list(kp)
             want = intended[(cur, kp)]
             hops += 1
@@ -473,7 +477,12 @@ class Batch:
         want, kinds = oracle(layout, inodes, base, home, cwd_abs, entry_abs, keys)
         inp = {"layout": layout, "cwd": cwd_rel, "entry": entry, "keys": keys, "as_path": as_path,
                "home": home is not None}
-        if observe and real != want:
+        # `./ghost/../x` (ghost missing): the kernel says ENOENT, Nix's lexical reading says `./x`; the
+        # property does not choose, so either outcome is accepted (the model follows the kernel).
+        want_lex = want
+        if "ghost" in repr(layout) or real != want:
+            want_lex, _ = oracle(layout, inodes, base, home, cwd_abs, entry_abs, keys, lexical=True)
+        if observe and real != want and real != want_lex:
             want_rel, _ = oracle(layout, inodes, base, home, cwd_abs, entry_abs, keys, home_relative=True)
             ctx.fail(classify(real, want, want_rel, kinds), inp,
                      f"parse_file({entry!r})[{']['.join(map(repr, keys))}] with cwd={cwd_rel or '.'!r}: "
@@ -656,14 +665,21 @@ def run(ctx: fw.Ctx):
     fixed_cases(ctx)
     pure_correspondence(ctx, 5 if ctx.quick else 6)
     if ctx.quick:
-        explore(ctx, n_layouts=36, depth=3, max_hops=3, chains_per_layout=10, n_cwds=3)
+        explore(ctx, n_layouts=70, depth=3, max_hops=3, chains_per_layout=10, n_cwds=3)
     else:
         explore(ctx, n_layouts=500, depth=4, max_hops=5, chains_per_layout=16, n_cwds=4)
+    _simplest_first(ctx)
+
+
+def _simplest_first(ctx):
+    """Report, per failure class, the failing input with the fewest keys / files."""
+    ctx.failures.sort(key=lambda f: (len(f["input"].get("keys", ())), len(f["input"].get("layout", {}).get("files", ()))))
 
 
 def search(ctx: fw.Ctx):
     """Broken tie: explore wider with the oracle (no model needed to find a failing input)."""
     explore(ctx, n_layouts=60 if ctx.quick else 400, depth=4, max_hops=5, chains_per_layout=14, n_cwds=4)
+    _simplest_first(ctx)
 
 
 def replay(payload: dict) -> int:
